@@ -482,6 +482,11 @@ impl<'a> Worker<'a> {
                 }
             }
         }
+        if case.meta.get("reference_no_stdout_redirect").and_then(|b| b.as_bool()).unwrap_or(false) {
+            for s in &mut fresh.steps {
+                s.stdout_to = None;
+            }
+        }
         if let Some(ri) = case.meta.get("reference_source").and_then(|x| x.as_str()) {
             for i in fresh.inputs.iter_mut() {
                 if i.path == crate::scen::SRC {
